@@ -12,7 +12,16 @@ Definition under_gsrc (gsrc dir : path) : option path :=
 Definition good_edge (c : ctx) (d i : path) : bool :=
   path_eqb (y_key i) i && negb (is_rel i) && negb (mem vendor i)
   && match i with [] => false | _ => true end
-  && resolve_side (tree_stat (c_tree c)) (tree_hasgo (c_tree c)) (c_gsrc c) d i.
+  && resolve_side (tree_stat (c_tree c)) (tree_hasgo (c_tree c)) (c_gsrc c) d i
+  (* region "source-location-retry": what the importer's own walk does not find is not found from
+     the input file's directory either (Go would not look there) *)
+  && match y_pkg_dir (tree_stat (c_tree c)) (c_gsrc c) (S (length d)) d i with
+     | NotFound => match y_pkg_dir (tree_stat (c_tree c)) (c_gsrc c) (S (length (c_retry c))) (c_retry c) i with
+                   | NotFound => true
+                   | _ => false
+                   end
+     | _ => true
+     end.
 
 Definition good_pkg (c : ctx) (k : pkg) : bool :=
   match under_gsrc (c_gsrc c) (pdir k) with
@@ -35,6 +44,7 @@ Definition coherent (tb : list (path * option path)) : bool :=
 (** the entry is found at GOPATH/src/<e> from the pseudo root "main" (region "entry-shadow") *)
 Definition entry_ok (c : ctx) (e : path) : bool :=
   path_eqb (y_key e) e && negb (is_rel e) && plain e
+  && match c_entry c with [] => true | _ => false end
   && match y_pkg_dir (tree_stat (c_tree c)) (c_gsrc c) 2 [mainid] e with
      | Found dir rp => path_eqb dir (c_gsrc c ++ e) && path_eqb rp []
      | _ => false
@@ -45,11 +55,16 @@ Definition good_prog (c : ctx) (e : path) : bool :=
 
 (** ** the semantic per-import condition, for any importer (also outside GOPATH, also relative imports) *)
 
-(** the rPath a package directory must get: relative to GOPATH/src if below it, else to the entry directory *)
+(** the rPath a package directory must get: relative to the entry file's directory if below it
+    (also when that lies inside GOPATH), else relative to GOPATH/src *)
 Definition rp_of (c : ctx) (dir : path) : path :=
-  match under_gsrc (c_gsrc c) dir with
-  | Some d => d
-  | None => match under_gsrc (c_entry c) dir with Some r => r | None => dir end
+  let gopath_rel := match under_gsrc (c_gsrc c) dir with Some d => d | None => dir end in
+  match c_entry c, under_gsrc (c_entry c) dir with
+  | _ :: _, Some r =>
+      (* below the entry file's directory: reached by relative imports — except the packages of a
+         vendor directory there, which only an import path reaches (from GOPATH/src) *)
+      if mem vendor r then gopath_rel else r
+  | _, _ => gopath_rel
   end.
 
 (** importSrc called with [rp] for the import [i] of the package in [dir] finds the directory Go finds,
@@ -147,7 +162,7 @@ Lemma good_edge_resolve c d i :
   | OutOfFuel => False
   end.
 Proof.
-  intros H Hd. unfold good_edge in H.
+  intros H Hd. unfold good_edge in H. apply andb_true_iff in H as [H _].
   apply andb_true_iff in H as [H Hside]. apply andb_true_iff in H as [H Hne].
   apply andb_true_iff in H as [H Hv]. apply andb_true_iff in H as [Hk Hr].
   apply path_eqb_eq in Hk. apply negb_true_iff in Hr, Hv.
@@ -171,22 +186,34 @@ Proof.
 Qed.
 
 
-Lemma rp_of_gsrc c d : rp_of c (c_gsrc c ++ d) = d.
-Proof. unfold rp_of. now rewrite under_gsrc_app. Qed.
+Lemma rp_of_gsrc c d : c_entry c = [] -> rp_of c (c_gsrc c ++ d) = d.
+Proof. intros E. unfold rp_of. rewrite E. now rewrite under_gsrc_app. Qed.
+
+Lemma good_edge_retry c d i :
+  good_edge c d i = true ->
+  y_pkg_dir (tree_stat (c_tree c)) (c_gsrc c) (S (length d)) d i = NotFound ->
+  y_pkg_dir (tree_stat (c_tree c)) (c_gsrc c) (S (length (c_retry c))) (c_retry c) i = NotFound.
+Proof.
+  unfold good_edge. intros H E. apply andb_true_iff in H as [_ H]. rewrite E in H.
+  destruct (y_pkg_dir _ _ _ (c_retry c) i); congruence.
+Qed.
 
 (** for packages below GOPATH/src the intrinsic condition [good_pkg] (resolve_side ...) implies the
-    semantic one: this is where C16_resolve_partial and C16_sub_rpath_is_dir are used *)
-Lemma good_pkg_ok c k : good_pkg c k = true -> pkg_ok c k = true.
+    semantic one: this is where C16_resolve_partial and C16_sub_rpath_is_dir are used. [Hrp]: the
+    packages below GOPATH/src get their GOPATH-relative rPath (no entry file directory above them) *)
+Lemma good_pkg_ok c k :
+  (forall d, rp_of c (c_gsrc c ++ d) = d) -> good_pkg c k = true -> pkg_ok c k = true.
 Proof.
-  unfold good_pkg, pkg_ok. destruct (under_gsrc (c_gsrc c) (pdir k)) as [d|] eqn:Eu; [|discriminate].
+  intros Hrp. unfold good_pkg, pkg_ok. destruct (under_gsrc (c_gsrc c) (pdir k)) as [d|] eqn:Eu; [|discriminate].
   apply under_gsrc_some in Eu. intros H. apply andb_true_iff in H as [Hd Hall].
   rewrite forallb_forall in *. intros i Hi. specialize (Hall i Hi).
   destruct (good_edge_resolve c d i Hall Hd) as [Hkey [Hrel Hres]].
+  pose proof (good_edge_retry c d i Hall) as Hretry.
   unfold edge_ok. rewrite Hkey, path_eqb_refl. cbn [andb].
-  rewrite Eu, rp_of_gsrc. unfold y_find. rewrite Hrel.
+  rewrite Eu, Hrp. unfold y_find. rewrite Hrel.
   destruct (y_pkg_dir (tree_stat (c_tree c)) (c_gsrc c) (S (length d)) d i) as [dir rp| |].
-  - destruct Hres as [Hg [d' [-> <-]]]. rewrite Hg, rp_of_gsrc. simpl. now rewrite !path_eqb_refl.
-  - now rewrite Hres.
+  - destruct Hres as [Hg [d' [-> <-]]]. rewrite Hg, Hrp. simpl. now rewrite !path_eqb_refl.
+  - rewrite (Hretry eq_refl). now rewrite Hres.
   - contradiction.
 Qed.
 
@@ -398,17 +425,23 @@ End Sim.
 Lemma table_edge c e k i : In k (c_tree c) -> In i (pimps k) -> In (i, g_imp c (pdir k) i) (table c e).
 Proof. intros Hk Hi. right. now apply all_edges_In. Qed.
 
-Lemma good_pkgs_ok c : forallb (good_pkg c) (c_tree c) = true -> forallb (pkg_ok c) (c_tree c) = true.
-Proof. rewrite !forallb_forall. intros H k Hk. apply good_pkg_ok. now apply H. Qed.
+Lemma good_pkgs_ok c : c_entry c = [] ->
+  forallb (good_pkg c) (c_tree c) = true -> forallb (pkg_ok c) (c_tree c) = true.
+Proof.
+  intros E. rewrite !forallb_forall. intros H k Hk.
+  apply good_pkg_ok; [intros d; now apply rp_of_gsrc|now apply H].
+Qed.
 
 (** entered by an import path *)
 Theorem load_agree c e : good_prog c e = true -> y_run_path c e = g_run_path c e.
 Proof.
   intros Hgood. unfold good_prog in Hgood.
   apply andb_true_iff in Hgood as [Hgood Hco]. apply andb_true_iff in Hgood as [Hentry Hpk].
-  apply good_pkgs_ok in Hpk.
   unfold entry_ok in Hentry.
-  apply andb_true_iff in Hentry as [Hentry Hfind]. apply andb_true_iff in Hentry as [Hentry Hpl].
+  apply andb_true_iff in Hentry as [Hentry Hfind]. apply andb_true_iff in Hentry as [Hentry Hnoentry].
+  assert (Hce : c_entry c = []) by (destruct (c_entry c); [reflexivity|discriminate]).
+  apply (good_pkgs_ok c Hce) in Hpk.
+  apply andb_true_iff in Hentry as [Hentry Hpl].
   apply andb_true_iff in Hentry as [Hkey Hrel]. apply path_eqb_eq in Hkey. apply negb_true_iff in Hrel.
   pose proof (load_terminates_path c e) as Hterm.
   unfold y_run_path, g_run_path, g_run_dir in *. unfold load_fuel in *.
@@ -426,7 +459,7 @@ Proof.
   { constructor; simpl; try tauto. intros k. split; [tauto|]. intros [[]|[t [[] _]]]. }
   pose proof (body_agree c (table c e) Hpk Hco (table_edge c e) F [] {| y_memo := []; y_rdir := []; y_log := [] |} g_init e (c_gsrc c ++ e) imps
                 (step_agree c (table c e) Hpk Hco (table_edge c e) F) Ei Hedge Hinv eq_refl (fun H => H)) as Hb.
-  cbv zeta in Hb. unfold y_mark in Hb. cbn [y_memo y_rdir y_log] in Hb. rewrite rp_of_gsrc in Hb.
+  cbv zeta in Hb. unfold y_mark in Hb. cbn [y_memo y_rdir y_log] in Hb. rewrite (rp_of_gsrc c e Hce) in Hb.
   change (fun (g : gstate) (i' : path) => g_step c F [c_gsrc c ++ e] (c_gsrc c ++ e) g i')
     with (fun (s : gstate) (i : path) => match g_imp c (c_gsrc c ++ e) i with
                                           | Some d' => g_load c F [c_gsrc c ++ e] s d'
@@ -526,3 +559,52 @@ Lemma good_file_excludes :
   good_file c_relative = false /\ good_file (mkctx "gp/src" "gp/src/e" t_entry_file) = false
   /\ good_file (mkctx "gp/src" "work" t_rel_root) = false.
 Proof. repeat split; vm_compute; reflexivity. Qed.
+
+(** ** the entry file inside GOPATH/src/<proj>: the second attempt of importSrc *)
+
+(** main.go in gp/src/org/proj imports "./local" (which imports "./sub"); the last package of the
+    chain imports "dep/a", which exists only in gp/src/org/proj/vendor *)
+Definition t_proj : tree :=
+  [mkpkg "gp/src/org/proj" ["./local"]; mkpkg "gp/src/org/proj/local" ["./sub"];
+   mkpkg "gp/src/org/proj/local/sub" ["dep/a"]; mkpkg "gp/src/org/proj/vendor/dep/a" []].
+Definition c_proj : ctx := mkctx "gp/src" "gp/src/org/proj" t_proj.
+
+Lemma retry_inhabited :
+  c_retry c_proj = pth "org/proj"
+  /\ good_file c_proj = true
+  /\ snd (y_run_file c_proj) = None
+  /\ In (EvEdge (pth "gp/src/org/proj/local/sub") (pth "dep/a") (pth "gp/src/org/proj/vendor/dep/a")) (fst (y_run_file c_proj))
+  /\ y_run_file c_proj = g_run_file c_proj.
+Proof. repeat split; vm_compute; tauto. Qed.
+
+(** without the second attempt (retry root "": what the faithful model says of a run whose input
+    file is not located through the working directory) the same program fails *)
+Lemma retry_needed :
+  snd (y_run_file {| c_gsrc := c_gsrc c_proj; c_entry := c_entry c_proj; c_retry := []; c_tree := t_proj |})
+  = Some ENotFound.
+Proof. vm_compute. reflexivity. Qed.
+
+(** region "source-location-retry": a GOPATH package outside the project gets at the project's
+    vendor directory through the second attempt; Go does not find the package *)
+Definition t_foreign : tree :=
+  [mkpkg "gp/src/org/proj" ["q"]; mkpkg "gp/src/q" ["dep/a"]; mkpkg "gp/src/org/proj/vendor/dep/a" []].
+Lemma source_location_retry_refuted :
+  snd (y_run_file (mkctx "gp/src" "gp/src/org/proj" t_foreign)) = None
+  /\ In (EvEdge (pth "gp/src/q") (pth "dep/a") (pth "gp/src/org/proj/vendor/dep/a"))
+        (fst (y_run_file (mkctx "gp/src" "gp/src/org/proj" t_foreign)))
+  /\ snd (g_run_file (mkctx "gp/src" "gp/src/org/proj" t_foreign)) = Some ENotFound
+  /\ good_file (mkctx "gp/src" "gp/src/org/proj" t_foreign) = false.
+Proof. repeat split; vm_compute; tauto. Qed.
+
+(** region "relative-root" in this layout: the path exists in the project's vendor directory and in
+    GOPATH/src: the first attempt of the relatively imported package finds the GOPATH one *)
+Definition t_proj_both : tree :=
+  [mkpkg "gp/src/org/proj" ["./local"]; mkpkg "gp/src/org/proj/local" ["dep/a"];
+   mkpkg "gp/src/org/proj/vendor/dep/a" []; mkpkg "gp/src/dep/a" []].
+Lemma proj_both_refuted :
+  In (EvEdge (pth "gp/src/org/proj/local") (pth "dep/a") (pth "gp/src/dep/a"))
+     (fst (y_run_file (mkctx "gp/src" "gp/src/org/proj" t_proj_both)))
+  /\ In (EvEdge (pth "gp/src/org/proj/local") (pth "dep/a") (pth "gp/src/org/proj/vendor/dep/a"))
+        (fst (g_run_file (mkctx "gp/src" "gp/src/org/proj" t_proj_both)))
+  /\ good_file (mkctx "gp/src" "gp/src/org/proj" t_proj_both) = false.
+Proof. repeat split; vm_compute; tauto. Qed.
